@@ -374,7 +374,8 @@ func genCheckSchema(r *Rng, o *Out) *jsonapi.Schema {
 		rel := t.Rels[k]
 		switch r.IntN(6) {
 		case 0:
-			rel.ToType = "nonexistent"
+			// a target that is no type of the schema, some of them near misses
+			rel.ToType = []string{"nonexistent", strings.ToUpper(tn()), tn() + " ", "", strings.Title(tn())}[r.IntN(5)]
 			o.stat("fault.dangling")
 		case 1:
 			rel.ToName = r.pick(schemaNames)
